@@ -8,6 +8,7 @@ import (
 	"io"
 	"strings"
 	"testing"
+	"time"
 
 	"github.com/biogo/biogo/alphabet"
 	"github.com/biogo/biogo/io/featio/bed"
@@ -38,7 +39,7 @@ type C03Plan struct {
 }
 
 var c03Readers = []string{"fasta", "fastq", "bed3", "bed4", "bed5", "bed6", "bed12", "gff", "gff", "gff-notimeformat", "fasta-picky", "fastq-picky",
-	"fastq-solexa", "fastq-illumina1.3", "fastq-illumina1.5", "fastq-illumina1.8", "fastq-illumina1.9", "fasta-idprefix", "fasta-qseq"}
+	"fastq-solexa", "fastq-illumina1.3", "fastq-illumina1.5", "fastq-illumina1.8", "fastq-illumina1.9", "fasta-idprefix", "fasta-qseq", "fastq-plain", "gff-ansic"}
 
 // the quality encodings a FASTQ template may declare
 var fastqEncodings = map[string]alphabet.Encoding{
@@ -111,10 +112,16 @@ func openReader(kind string, src io.Reader) (func() (interface{}, error), error)
 	case "fastq-picky":
 		r := fastq.NewReader(src, pickyQSeq{linear.NewQSeq("", nil, alphabet.DNA, alphabet.Sanger)})
 		return func() (interface{}, error) { s, err := r.Read(); return s, err }, nil
-	case "gff", "gff-notimeformat":
+	case "fastq-plain":
+		r := fastq.NewReader(src, linear.NewSeq("", nil, alphabet.DNA)) // a template without qualities
+		return func() (interface{}, error) { s, err := r.Read(); return s, err }, nil
+	case "gff", "gff-notimeformat", "gff-ansic":
 		r := gff.NewReader(src)
 		if kind == "gff-notimeformat" {
 			r.TimeFormat = "" // a documented setting: date lines are then not parsed
+		}
+		if kind == "gff-ansic" {
+			r.TimeFormat = time.ANSIC // a layout of several words
 		}
 		return func() (interface{}, error) { f, err := r.Read(); return f, err }, nil
 	}
@@ -933,7 +940,7 @@ func shrinkC03(c *Case) []*Case {
 	}
 	// drop lines, then halves, then single bytes
 	lines := bytes.SplitAfter(in, []byte{'\n'})
-	if len(lines) > 1 {
+	if len(lines) > 1 && len(lines) <= 400 { // (a candidate per line: not for the size-driven inputs)
 		for i := range lines {
 			var b []byte
 			for j, l := range lines {
